@@ -278,7 +278,9 @@ def tft_walks(ctx, p, w, cyclic, out_cases, out_meta):
         try:
             root = p.parse(w['text'])
             case, res, nev = fc.coq_gtft_case(root, p, resolve)
-            named = fc.with_timeout(20, TreeForestTransformer(resolve_ambiguity=resolve).transform, p.parse(w['text']))
+            fsv = p.parser.parser.forest_sum_visitor      # the same prioritizer as the instrumented walk
+            named = fc.with_timeout(20, TreeForestTransformer(prioritizer=fsv and fsv(), resolve_ambiguity=resolve).transform,
+                                    p.parse(w['text']))
         except fc.Timeout:
             ctx.violation('walk-timeout', dict(w, visitor='ForestToParseTree', resolve=resolve), True,
                           'ForestToParseTree(resolve_ambiguity=%s).transform did not return within 20 s' % resolve)
